@@ -38,7 +38,7 @@ Section Shapes.
   }.
   (* ... and with the same held list *)
   Record gsame (s : mstate) (x0 x' : thr) (h : N) : Prop := {
-    GS_fr : forall r i, fr g h r i x' = fr g h r i x0;
+    GS_fr : forall r i, r < ROWS -> i < 64 -> fr g h r i x' = fr g h r i x0;
     GS_tr : forall r, tr g h r x' = tr g h r x0;
     GS_pend : pend g h x' = pend g h x0;
     GS_trc : trcount g h x' = trcount g h x0;
@@ -46,7 +46,7 @@ Section Shapes.
     GS_hfr : hfr g h x' = hfr g h x0
   }.
   Lemma gsame_H s x0 x' h : gsame s x0 x' h -> gsameH s (ms_held s) x0 x' h.
-  Proof. intros [A B C D E F]. constructor; auto; intros; rewrite ?A, ?F; reflexivity. Qed.
+  Proof. intros [A B C D E F]. constructor; auto; intros; rewrite ?A, ?F by assumption; reflexivity. Qed.
 
   Definition mk_thr (s : mstate) (t : nat) (x' : thr) (held' : list (N * nat)) : mstate :=
     set_held (set_thr s t x') held'.
@@ -542,6 +542,99 @@ Section Shapes.
     - intros _. rewrite Hp, Htrc. pose proof (cz_clear cur v' off w Hw Hclr Hset). lia.
     - intros Hm. contradiction.
     - rewrite Hhfr. reflexivity.
+  Qed.
+
+  (* ----- entry-level ownership covers whole huge frames ----- *)
+  Lemma hugeb_le_cover fr b h r i : blk_ok fr b = true -> r < ROWS -> i < 64 -> hugeb g h b <= b2n (cover b (fidx g h r i)).
+  Proof.
+    intros Hok Hr Hi. destruct b as [F K]. unfold hugeb, cover, blk_ok in *. cbn [fst snd] in *.
+    destruct (Nat.leb_spec (hord g) K) as [HK|HK]; [|cbn; lia]. cbn [andb].
+    assert (Hal : F mod pow2 K = 0) by lia.
+    rewrite (pow2_split (hord g) K HK), <- HF_pow2 in *.
+    pose proof (HF_pos g). pose proof (pow2_nz (K - hord g)).
+    assert (EF : F = F / HF * HF).
+    { pose proof (mod_of_multiple F HF (pow2 (K - hord g)) ltac:(lia) ltac:(lia)) as M.
+      rewrite (N.mul_comm HF) in M. specialize (M Hal). pose proof (N.div_mod F HF ltac:(lia)). lia. }
+    rewrite EF. pose proof (rowbit_lt g wf r i Hr Hi). unfold fidx. rewrite <- N.add_assoc.
+    rewrite (inb_ents g (F / HF) (pow2 (K - hord g)) h (r * 64 + i)) by assumption.
+    replace (h * HF) with (h * HF + 0) by lia. rewrite (inb_ents g (F / HF) (pow2 (K - hord g)) h 0) by lia. lia.
+  Qed.
+  Lemma hugec_le_heldc fr held h r i : Forall (fun b => blk_ok fr b = true) held -> r < ROWS -> i < 64 ->
+    hugec g h held <= heldc (fidx g h r i) held.
+  Proof. intros Hf Hr Hi. apply sumf_le_in. intros b Hb. apply (hugeb_le_cover fr); [|assumption|assumption].
+    exact (proj1 (Forall_forall _ _) Hf b Hb). Qed.
+
+  Lemma huge_call_aligned fr c : cwf g fr c = true -> (hord g <= c_order c)%nat -> is_get c = false ->
+    c_frame c = c_huge g c * HF /\ c_n c = c_hnum g c * HF.
+  Proof.
+    intros Hc Hk Hg. unfold c_n, c_hnum. rewrite (pow2_split (hord g) (c_order c) Hk), <- HF_pow2. split; [|reflexivity].
+    assert (Hal : c_frame c mod pow2 (c_order c) = 0) by (unfold cwf in Hc; destruct c; try discriminate; cbn [c_frame c_order] in *; lia).
+    rewrite (pow2_split (hord g) (c_order c) Hk), <- HF_pow2 in Hal.
+    pose proof (HF_pos g). pose proof (pow2_nz (c_order c - hord g)).
+    pose proof (mod_of_multiple (c_frame c) HF (pow2 (c_order c - hord g)) ltac:(lia) ltac:(lia)) as M.
+    rewrite (N.mul_comm HF) in M. specialize (M Hal). unfold c_huge. pose proof (N.div_mod (c_frame c) HF ltac:(lia)). lia.
+  Qed.
+
+  Lemma hu_aligned fr x : local_b g fr x = true -> hu (ghost_of g x) = true ->
+    exists a cnt, own_lo (ghost_of g x) = a * HF /\ own_n (ghost_of g x) = cnt * HF.
+  Proof.
+    destruct x as [l|c p|s c]; cbn [local_b ghost_of]; [cbn; discriminate| |destruct s; cbn; discriminate].
+    intros L Hu.
+    destruct p; cbn [gpc lpc] in *; try (cbn in Hu; discriminate); try (destruct x; cbn in Hu; discriminate).
+    - destruct (is_put c) eqn:Ep; cbn [own_lo own_n ghuge].
+      + destruct (huge_call_aligned fr c) as [E1 E2]; try lia; [apply is_put_not_get; exact Ep|].
+        exists (c_huge g c + q), (c_hnum g c - q). rewrite E1, E2, N.mul_sub_distr_r, N.mul_add_distr_r. split; reflexivity.
+      + exists (group_h g c gi), q. split; reflexivity.
+    - destruct (is_put c) eqn:Ep; cbn [own_lo own_n ghuge].
+      + exfalso. lia.
+      + exists (group_h g c gi), (q + 1). split; reflexivity.
+  Qed.
+  Lemma hfr_le_fr fm x h r i : local_b g fm x = true -> r < ROWS -> i < 64 -> hfr g h x <= fr g h r i x.
+  Proof.
+    intros L Hr Hi. unfold hfr, fr. destruct (hu (ghost_of g x)) eqn:Hu; [|cbn; lia]. cbn [andb].
+    destruct (hu_aligned fm x L Hu) as (a & cnt & E1 & E2). rewrite E1, E2.
+    pose proof (rowbit_lt g wf r i Hr Hi). unfold fidx. rewrite <- N.add_assoc.
+    rewrite (inb_ents g a cnt h (r * 64 + i)) by assumption.
+    replace (h * HF) with (h * HF + 0) at 1 by lia. pose proof (HF_pos g). rewrite (inb_ents g a cnt h 0) by lia. lia.
+  Qed.
+
+  (* entry-level ownership of the other threads is bounded by their frame-level ownership *)
+  Lemma hfr_others s t x0 h r i : Inv g s -> nth_error (ms_pool s) t = Some x0 -> r < ROWS -> i < 64 ->
+    sumf (hfr g h) (ms_pool s) + fr g h r i x0 <= sumf (fr g h r i) (ms_pool s) + hfr g h x0.
+  Proof.
+    intros I Ht Hr Hi.
+    pose proof (sumf_upd (hfr g h) _ t (TIdle None) x0 Ht) as U1.
+    pose proof (sumf_upd (fr g h r i) _ t (TIdle None) x0 Ht) as U2.
+    assert (Hle : sumf (hfr g h) (upd (ms_pool s) t (TIdle None)) <= sumf (fr g h r i) (upd (ms_pool s) t (TIdle None))).
+    { apply sumf_le_in. intros x Hx. apply (hfr_le_fr (ms_frames s)); try assumption.
+      assert (Hf : Forall (fun x => local_b g (ms_frames s) x = true) (upd (ms_pool s) t (TIdle None))) by (apply Forall_upd; [apply I|reflexivity]).
+      exact (proj1 (Forall_forall _ _) Hf x Hx). }
+    assert (hfr g h (TIdle None) = 0) by reflexivity.
+    assert (fr g h r i (TIdle None) = 0) by (gsimp; unfold inb; lia).
+    lia.
+  Qed.
+
+  (* the frames of a small block, counted inside its huge frame *)
+  Lemma gfr_small fm c x : cwf g fm c = true -> small g c = true -> is_get c = false ->
+    own_lo (ghost_of g x) = c_frame c -> own_n (ghost_of g x) = c_n c ->
+    gfr g (c_huge g c) x = c_n c.
+  Proof.
+    intros Hc Hs Hg E1 E2. unfold gfr, fr. cbv zeta. rewrite E1, E2.
+    destruct (small_call_decomp g wf fm c Hc Hs Hg) as (E & H1 & H2 & Hal & _).
+    assert (Hk : (c_order c < hord g)%nat) by (unfold small in Hs; apply Nat.ltb_lt in Hs; exact Hs).
+    destruct (Nat.le_gt_cases (c_order c) 6) as [H6|H7].
+    - pose proof (small_fit6 g (c_frame c) (c_order c) Hal Hk H6) as Hfit. fold (t_off XPut c) in Hfit. fold (c_n c) in Hfit.
+      rewrite (gsum_ext g _ (fun r i => b2n (r =? t_row g XPut c) * b2n (inb (t_off XPut c) (c_n c) i))).
+      2:{ intros r i Hr Hi. rewrite (own_block6 fm c _ r i Hc Hs Hg H6 Hr Hi), N.eqb_refl. cbn [andb].
+          destruct (r =? t_row g XPut c); cbn; lia. }
+      unfold gsum. rewrite (ssum_ext _ _ (fun r => c_n c * b2n (r =? t_row g XPut c))).
+      2:{ intros r Hr. rewrite ssum_mulc, (ssum_inb_in 64 _ _ Hfit). lia. }
+      rewrite ssum_mulc, ssum_eqb. destruct (N.ltb_spec (t_row g XPut c) ROWS); cbn; lia.
+    - destruct (toggle_rows_fit g wf fm c Hc Hs Hg H7) as (E0 & En & Hfit).
+      rewrite (gsum_ext g _ (fun r _ => b2n (inb (t_row g XPut c) (pow2 (c_order c - 6)) r))).
+      2:{ intros r i Hr Hi. pose proof (own_rows7 fm c 0 (c_huge g c) r i Hc Hs Hg H7 ltac:(lia) Hr Hi) as Eo.
+          rewrite N.mul_0_r, N.add_0_r, N.sub_0_r, N.add_0_r, N.sub_0_r, N.eqb_refl in Eo. rewrite Eo. reflexivity. }
+      rewrite (gsum_row g), (ssum_inb_in ROWS _ _ Hfit). lia.
   Qed.
 End Shapes.
 
